@@ -15,7 +15,7 @@ dropped by the check; the rate is reported.
 """
 import random
 
-from C03_lang import switch_depth_ok
+from C03_lang import switch_depth_ok, flt
 
 BOUNDARY = [0, 1, 2, 255, 256, 257, 65535, 65536, 65537, 16777215, 16777216, 16777217,
             2147483647, 2147483648, 2147483649, 4294967295, 4294967296, 4294967297,
@@ -23,6 +23,8 @@ BOUNDARY = [0, 1, 2, 255, 256, 257, 65535, 65536, 65537, 16777215, 16777216, 167
 SMALL = [0, 1, 2, 3, 4, 5, 7, 8, 10, 13, 100]
 WORDS = ["a", "bb", "foo", "bar", "zed", "x y", "Hello", "k9", "", "0", "tab\there", "q\"uote", "back\\slash", "nl\nline", "sp  ace"]
 SAFE_WORDS = ["a", "bb", "foo", "bar", "zed", "Hello", "k9", "abc"]
+FLOATS = ["0.5", "1.5", "2.25", "0.05", "1.05", "0.125", "3.75", "10.0", "0.0", "100.001", "0.0004", "0.0006", "0.00005",
+          "0.999", "0.9996", "1234.5678", "16777216.0", "0.1", "0.2", "0.3", "1e+2", "5e-1", "7.0", "0.001", "2147483648.0"]
 ARITH = ["add", "sub", "mul"]
 BITS = ["band", "bor", "bxor"]
 CMP = ["eq", "ne", "lt", "le", "gt", "ge"]
@@ -70,6 +72,7 @@ class Gen:
         self.next_exc = 100
         self.next_goto = 50
         self.funcs = {}          # f -> dict(kind, nparams, rec)
+        self.goto_target = None  # a label placed later at the top level of the current thread
         self.cur = None          # the function being generated
         self.scopes = ["l", "l", "l", "g", "v", "m", "p"]
         self.cov = {}
@@ -241,8 +244,11 @@ class Gen:
             return ("b", self.rng.choice(["eq", "ne"]), self.gen_int(ctx, 0), ("s", str(self.rng.choice(SMALL))))
         if r < 0.93:
             return ("not", self.gen_cond(ctx, d - 1)) if d > 0 else ("not", self.gen_int(ctx, 0))
-        if r < 0.97:
+        if r < 0.96:
             return ("b", self.rng.choice(["eq", "ne"]), var("l", 9), ("nil",))
+        if r < 0.98 and self.flags.get("floats", True):
+            f = flt(self.rng.choice(FLOATS))
+            return f if self.rng.random() < 0.6 else ("not", f)
         return var("l", 9)
 
     def gen_printable(self, ctx, d):
@@ -256,8 +262,16 @@ class Gen:
         if r < 0.94 and self.arr_vars():
             sc, x = self.rng.choice(self.arr_vars())
             return ("x", var(sc, x), ("i", self.rng.randrange(0, 6)))
-        if r < 0.97:
+        if r < 0.955:
             return ("nil",)
+        if r < 0.985 and self.flags.get("floats", True):
+            f = flt(self.rng.choice(FLOATS))
+            k = self.rng.random()
+            if k < 0.5:
+                return f
+            if k < 0.75:
+                return ("neg", f)
+            return ("b", "add", ("s", self.rng.choice(SAFE_WORDS)), f) if k < 0.9 else ("b", "add", ("neg", f), ("s", "!"))
         if self.Lc["sarr"]:
             return ("x", var("l", 7), ("s", self.rng.choice(["ka", "kb", "kc"])))
         return self.gen_int(ctx, 1)
@@ -402,6 +416,13 @@ class Gen:
             return [("blk", self.gen_list(ctx.sub(), self.rng.randrange(0, 3)))]
         if r < 0.97 and ctx.handlers:
             return [self.gen_throw(ctx, guarded=True)]
+        r2 = self.rng.random()
+        if r2 < 0.12 and self.goto_target is not None and self.flags.get("goto", True):
+            self.note("goto", ctx)
+            return [("if", self.gen_cond(ctx, 1), ("goto", self.goto_target))]
+        if r2 < 0.22 and self.cur:
+            self.note("end", ctx)
+            return [("if", self.gen_cond(ctx, 1), self.gen_end(ctx))]
         if ctx.brk and self.rng.random() < 0.5:
             self.note("brk", ctx)
             return [("if", self.gen_cond(ctx, 1), ("brk",))]
@@ -409,6 +430,14 @@ class Gen:
             self.note("cont", ctx)
             return [("if", self.gen_cond(ctx, 1), ("cont",))]
         return [self.gen_simple(ctx)]
+
+    def gen_end(self, ctx):
+        k = self.cur["kind"]
+        if k == "wait":
+            return ("end1", self.gen_int(ctx, 1))
+        if k == "thread":
+            return ("end0",)
+        return ("end1", self.gen_printable_nonnil(ctx)) if self.rng.random() < 0.7 else ("end0",)
 
     def inner(self, ctx, w):
         return ctx.where if ctx.where in ("loop", "switch", "try", "catch") else w
@@ -453,7 +482,7 @@ class Gen:
         body = self.gen_list(body_ctx, self.rng.randrange(1, 4))
         if self.rng.random() < 0.7:
             body.insert(self.rng.randrange(0, len(body) + 1), self.gen_throw(body_ctx, guarded=self.rng.random() < 0.7))
-        hctx = ctx.sub(where="catch", brk=False, cont=False)
+        hctx = ctx.sub(where="catch") if self.flags.get("jump_in_catch", True) else ctx.sub(where="catch", brk=False, cont=False)
         params = [("l", 14 + k) for k in range(np)]
         hbody = [("pr", [("s", "caught")] + [var("l", 14 + k) for k in range(np)])] if self.rng.random() < 0.7 else []
         if hbody:
@@ -473,7 +502,7 @@ class Gen:
 
     def gen_switch(self, ctx):
         self.note("sw", ctx)
-        sctx = ctx.sub(brk=True, cont=False, where="switch", in_switch=True)
+        sctx = ctx.sub(brk=True, cont=ctx.cont and self.flags.get("continue_in_switch", True), where="switch", in_switch=True)
         on_str = self.rng.random() < 0.3
         if on_str:
             labels = self.rng.sample(SAFE_WORDS, self.rng.randrange(1, 4))
@@ -558,20 +587,42 @@ class Gen:
         if rec:
             body.append(("if", ("b", "le", var("l", 0), ("i", 0)), ("end1", self.gen_int(ctx, 1))))
             self.count += 1
-        body += self.gen_list(ctx, self.rng.randrange(1, 5))
+        mid = self.gen_sections(ctx, self.rng.randrange(1, 5))
         if kind == "wait":
             if rec:
                 self.funcs[f] = info       # visible to itself for the recursive call
                 rc = ("call", f, [("b", "sub", var("l", 0), ("i", 1))] + [self.gen_int(ctx, 0) for _ in range(nparams - 1)])
-                body.append(("end1", ("b", self.rng.choice(ARITH), self.gen_int(ctx, 1), rc)))
+                last = ("end1", ("b", self.rng.choice(ARITH), self.gen_int(ctx, 1), rc))
             else:
-                body.append(("end1", self.gen_int(ctx, 2)) if self.rng.random() < 0.9 else ("end0",))
+                last = ("end1", self.gen_int(ctx, 2)) if self.rng.random() < 0.95 else ("end0",)
         else:
-            body.append(("end0",))
+            last = ("end0",)
         self.count += 1
         self.funcs[f] = info
         self.cur = None
-        return items + [("st", s) for s in body]
+        return items + [("st", s) for s in body] + mid + [("st", last)]
+
+    def gen_sections(self, ctx, n):
+        """top-level statements of a thread with forward gotos (also out of nested statements) to labels between them"""
+        top = []
+        pending = None
+        for _ in range(n):
+            if pending is not None and self.rng.random() < 0.5:
+                top.append(("lab", pending, []))
+                pending = None
+                self.goto_target = None
+            if pending is None and self.rng.random() < 0.25 and self.flags.get("goto", True):
+                pending = self.next_goto
+                self.next_goto += 1
+                self.goto_target = pending
+                if self.rng.random() < 0.6:
+                    self.note("goto", ctx)
+                    top.append(("st", ("if", self.gen_cond(ctx, 1), ("goto", pending)) if self.rng.random() < 0.7 else ("goto", pending)))
+            top += [("st", s) for s in self.gen_stmt(ctx)]
+        if pending is not None:
+            top.append(("lab", pending, []))
+        self.goto_target = None
+        return top
 
     def gen_program(self):
         """-> list of items"""
@@ -586,33 +637,16 @@ class Gen:
             saved, self.max_stmts = self.max_stmts, self.count + 18
             funs.append(self.gen_function(f, kind, nparams, rec))
             self.max_stmts = saved
-        info = {"f": 10, "kind": "main", "nparams": 0, "rec": False}
+        nargs = self.rng.choice([0, 0, 0, 1, 2])
+        self.host_args = [self.rng.choice(SMALL + BOUNDARY + [-1, -7, -(2 ** 63 - 1)]) for _ in range(nargs)]
+        info = {"f": 10, "kind": "main", "nparams": nargs, "rec": False}
         self.cur = info
         self.choose_locals()
         self.max_stmts = max(self.max_stmts, self.count + 30)
-        main = [("lab", 0, [])]
+        main = [("lab", 0, [("l", 10 + k) for k in range(nargs)])]
         body = self.prelude("main")
         ctx = Ctx()
-        n = self.rng.randrange(2, 9)
-        sections = []
-        for _ in range(n):
-            sections.append(self.gen_stmt(ctx))
-        # gotos between top-level sections of main
-        top = []
-        pending = None
-        for sec in sections:
-            if pending is not None and self.rng.random() < 0.5:
-                top.append(("lab", pending, []))
-                pending = None
-            if pending is None and self.rng.random() < 0.2 and self.flags.get("goto", True):
-                g = self.next_goto
-                self.next_goto += 1
-                self.note("goto", ctx)
-                top.append(("st", ("if", self.gen_cond(ctx, 1), ("goto", g)) if self.rng.random() < 0.7 else ("goto", g)))
-                pending = g
-            top += [("st", s) for s in sec]
-        if pending is not None:
-            top.append(("lab", pending, []))
+        top = self.gen_sections(ctx, self.rng.randrange(2, 9))
         r = self.rng.random()
         if r < 0.6:
             top.append(("st", ("end1", self.gen_printable_nonnil(ctx))))
